@@ -87,7 +87,7 @@ def r123_check_game(ctx, chk, rule="C09.1"):
         nonlocal n_eval, n_bad
         # the attributes check_game reads are whatever the constructor made of its arguments
         penv = {("v", "players"): players, ("v", "transition_list"): tl, ("v", "rewards"): rewards, ("v", "final_states"): finals,
-                ("v", "prune_states"): True}
+                ("v", shared.solver_names(ctx)["flag_param"]): True}
         evi = Evaluator(sxi, penv)
         out = evi.run()
         if out[0] == "accept":
